@@ -168,11 +168,37 @@ pub fn any_m_g<S: Src, const SIDE: u8, const KG: u8>(s: &mut S) -> M {
         KG_BISHOP => M { kind: K_SIMPLE, cell: own(B), src, dst },
         KG_ROOK => M { kind: K_SIMPLE, cell: own(R), src, dst },
         KG_QUEEN => M { kind: K_SIMPLE, cell: own(Q), src, dst },
-        KG_EP => M { kind: K_EP, cell: own(s.below(6)), src, dst },
-        KG_CASTLING => M { kind: if s.bool() { K_OO } else { K_OOO }, cell: own(s.below(6)), src, dst },
+        // the special kinds are built geometrically: exactly the well-formed tuples of the group
+        // (every harness that uses groups assumes well-formedness or semilegality anyway; the
+        // ill-formed tuples are decided by `wellformed_exact` over all 532 480 tuples)
+        KG_EP => {
+            let f = src & 7;
+            let left = dst & 1 == 0;
+            let from = (if SIDE == WHITE { 24 } else { 32 }) + f;
+            let to_f = if left { f.wrapping_sub(1) } else { f + 1 } & 7;
+            let to = (if SIDE == WHITE { 16 } else { 40 }) + to_f;
+            M { kind: K_EP, cell: own(P), src: from, dst: to }
+        }
+        KG_CASTLING => {
+            let base = if SIDE == WHITE { 56 } else { 0 };
+            if s.bool() {
+                M { kind: K_OO, cell: own(K), src: base + 4, dst: base + 6 }
+            } else {
+                M { kind: K_OOO, cell: own(K), src: base + 4, dst: base + 2 }
+            }
+        }
         KG_PSPECIAL => {
             let k = s.below(5);
-            M { kind: if k == 0 { K_DOUBLE } else { K_PN + k - 1 }, cell: own(s.below(6)), src, dst }
+            let f = src & 7;
+            if k == 0 {
+                let from = (if SIDE == WHITE { 48 } else { 8 }) + f;
+                M { kind: K_DOUBLE, cell: own(P), src: from, dst: if SIDE == WHITE { from - 16 } else { from + 16 } }
+            } else {
+                let from = (if SIDE == WHITE { 8 } else { 48 }) + f;
+                let d = dst % 3; // 0 straight, 1 towards file a, 2 towards file h
+                let to_f = (if d == 0 { f } else if d == 1 { f.wrapping_sub(1) } else { f + 1 }) & 7;
+                M { kind: K_PN + k - 1, cell: own(P), src: from, dst: (if SIDE == WHITE { 0 } else { 56 }) + to_f }
+            }
         }
         KG_NULL => M { kind: K_NULL, cell: s.below(13), src, dst },
         KG_FOREIGN => {
